@@ -308,7 +308,9 @@ pub fn jacc_cases(r: &mut Rng, exhaustive_len: usize, random_n: usize) -> Vec<Ca
 }
 
 /// symbols for the distance streams: (char, class code)
-const DSYMS: &[(char, u32)] = &[('a', 7), ('e', 7), ('b', 6), ('c', 6), ('1', 4), ('x', 0), ('-', 4)];
+const DSYMS: &[(char, u32)] = &[('a', 7), ('e', 7), ('b', 6), ('c', 6), ('1', 4), ('x', 0), ('-', 4), ('k', 6), ('\u{16B}', 7), ('\u{1006B}', 0)];
+/// characters that collide when a scalar is truncated to 8 or 16 bits (`k` = U+006B, `ū` = U+016B, U+1006B), plus `b`
+const ALIAS_SYMS: &[(char, u32)] = &[('k', 6), ('\u{16B}', 7), ('b', 6), ('\u{1006B}', 0)];
 
 pub fn dist_cases(r: &mut Rng, exhaustive_len: usize, random_n: usize) -> Vec<Case> {
     let mut cases = vec![];
@@ -320,6 +322,18 @@ pub fn dist_cases(r: &mut Rng, exhaustive_len: usize, random_n: usize) -> Vec<Ca
     r.shuffle(&mut ops);
     for (i, ch) in ops.chunks(1500).enumerate() {
         cases.push(Case { name: format!("distx-{}", i), lang: "none".to_string(), stream: "dist-exhaustive", ops: ch.to_vec() });
+    }
+    // exhaustive pairs over characters that alias under truncation (a table indexed by a narrowed scalar would mix them up)
+    {
+        let asyms: Vec<char> = ALIAS_SYMS.iter().map(|e| e.0).collect();
+        let acls = |w: &Vec<char>| -> Vec<u32> { w.iter().map(|c| ALIAS_SYMS.iter().find(|e| e.0 == *c).map(|e| e.1).unwrap_or(0)).collect() };
+        let awords = small_words(&asyms, 3.min(exhaustive_len + 1));
+        let mut ops = vec![];
+        for a in &awords { for b in &awords { ops.push(Op::Dist(a.clone(), acls(a), b.clone(), acls(b))); } }
+        r.shuffle(&mut ops);
+        for (i, ch) in ops.chunks(1500).enumerate() {
+            cases.push(Case { name: format!("dista-{}", i), lang: "none".to_string(), stream: "dist-exhaustive-aliasing", ops: ch.to_vec() });
+        }
     }
     // long / short alternation, growth beyond the initial capacity, shuffled call order
     let mut ops = vec![];
